@@ -37,6 +37,22 @@
 (*   FlattenToFile writer.flattenToFile -> twisted flattenString           *)
 (*                                                          (writer.py:21) *)
 (*                                                                         *)
+(*   ParseXmlFails the same call raising (SAXParseException) because the   *)
+(*                 text holds a character XML cannot represent (U+FFFF,    *)
+(*                 form feed, &nbsp; ...): the HTML string is lost         *)
+(*   Fallback      the caller goes back to the SOURCE text (level 0) and   *)
+(*                 puts it in the stan tree: format_docstring_fallback ->  *)
+(*                 plaintext to_stan (epydoc2stan.py:745),                 *)
+(*                 colorized_pyval_fallback -> gettext (epydoc2stan.py:981)*)
+(*   Elide         the caller shows a fixed text instead: "(...)" for a    *)
+(*                 signature (pages/__init__.py:59-66), "Broken            *)
+(*                 description" for a summary (epydoc2stan.py:808)         *)
+(*                                                                         *)
+(* Payload classes: "plain" (every character can be written in XML) and    *)
+(* "xmlbreak" (holds a character that makes html2stan raise): every route  *)
+(* with a ParseXml stage is cut at its first ParseXml and continues with   *)
+(* the fallback of its zone - which must also end at level 1, or nowhere.  *)
+(*                                                                         *)
 (* Feeds is the table (source kind, zone of the page, context, quoted) ->  *)
 (* route, transcribed from astbuilder._ValueFormatter,                     *)
 (* pages.format_signature / format_decorators / format_class_signature,    *)
@@ -50,7 +66,7 @@
 (* compares the observed sinks / levels / stage events with this module.   *)
 (* Source = "file": the same invariants evaluated on OBSERVED flows.       *)
 (***************************************************************************)
-EXTENDS Naturals, Sequences, FiniteSets, TLC, Json, IOUtils
+EXTENDS Integers, Sequences, FiniteSets, TLC, Json, IOUtils
 
 CONSTANT Source          \* "enum" | "file"
 
@@ -79,7 +95,10 @@ Stage ==
     Colorize       |-> [from |-> {"node"},         to |-> "stan", d |-> 0],
     FlattenInner   |-> [from |-> {"stan"},         to |-> "html", d |-> 1],
     Quote          |-> [from |-> {"src"},          to |-> "src",  d |-> 0],
-    FlattenToFile  |-> [from |-> {"stan"},         to |-> "file", d |-> 1] ]
+    FlattenToFile  |-> [from |-> {"stan"},         to |-> "file", d |-> 1],
+    ParseXmlFails  |-> [from |-> {"html"},         to |-> "lost", d |-> 0],
+    Fallback       |-> [from |-> {"lost"},         to |-> "stan", d |-> 0],   \* level := 0, see Apply
+    Elide          |-> [from |-> {"lost"},         to |-> "none", d |-> 0] ]
 
 \* ----------------------------------------------------------------------------- sinks per source kind
 S(z, c, q) == [zone |-> z, ctx |-> c, quoted |-> q]
@@ -148,39 +167,60 @@ Feeds ==
 
 Kinds == {f.kind : f \in Feeds}
 
+\* ----------------------------------------------------------------------------- payload classes and fallbacks
+Classes == {"plain", "xmlbreak"}
+FirstParse(r) == CHOOSE i \in 1..Len(r) : r[i] = "ParseXml" /\ \A j \in 1..(i - 1) : r[j] # "ParseXml"
+HasParse(r) == \E i \in 1..Len(r) : r[i] = "ParseXml"
+Cut(r) == SubSeq(r, 1, FirstParse(r) - 1) \o <<"ParseXmlFails">>
+\* which fallback the caller of the failing html2stan has
+Elided(f) == f.zone \in SummaryZones \cup {"signature"}      \* format_summary_fallback, format_signature
+             \/ f.ctx = "url"                               \* the link is gone with the parsed docstring
+RouteSeq(f, cls) ==
+  LET r == Routes[f.route] IN
+  IF cls = "plain" \/ ~HasParse(r) THEN r
+  ELSE IF Elided(f) THEN Cut(r) \o <<"Elide">>
+  ELSE Cut(r) \o <<"Fallback", "FlattenToFile">>
+
 \* ----------------------------------------------------------------------------- the flow of one pair
-Apply(st, lv) == IF st = "ParseXml" THEN (IF lv > 0 THEN lv - 1 ELSE 0) ELSE lv + Stage[st].d
+Apply(st, lv) == IF st = "ParseXml" THEN (IF lv > 0 THEN lv - 1 ELSE 0)
+                 ELSE IF st = "Fallback" THEN 0
+                 ELSE lv + Stage[st].d
+\* what the wrapped functions report: a raising html2stan is a ParseXml step with level out -3
+ObsStage(st) == IF st = "ParseXmlFails" THEN "ParseXml" ELSE st
+ObsOut(st, lv) == IF st = "ParseXmlFails" THEN -3 ELSE Apply(st, lv)
 
 RECURSIVE Walk(_, _, _, _)
-\* sequence of [stage, lin, lout, cont, raw] of a route started at level lv in container c
+\* sequence of [stage, lin, lout, typed, raw] of a route started at level lv in container c
 Walk(route, i, lv, c) ==
   IF i > Len(route) THEN <<>>
   ELSE LET st == route[i] IN
-       <<[stage |-> st, lin |-> lv, lout |-> Apply(st, lv), typed |-> c \in Stage[st].from,
-          raw |-> st = "ParseXml" /\ lv = 0]>> \o Walk(route, i + 1, Apply(st, lv), Stage[st].to)
-Flow(r) == Walk(Routes[r], 1, 0, "src")
-Final(r) == LET w == Flow(r) IN w[Len(w)].lout
+       <<[stage |-> ObsStage(st), lin |-> lv, lout |-> ObsOut(st, lv), typed |-> c \in Stage[st].from,
+          raw |-> st \in {"ParseXml", "ParseXmlFails"} /\ lv = 0]>> \o Walk(route, i + 1, Apply(st, lv), Stage[st].to)
+Flow(f, cls) == Walk(RouteSeq(f, cls), 1, 0, "src")
+Reaches(f, cls) == LET r == RouteSeq(f, cls) IN r[Len(r)] = "FlattenToFile"
+Final(f, cls) == LET w == Flow(f, cls) IN w[Len(w)].lout
 
 Observable == {"DocutilsEncode", "ParseXml", "FlattenInner"}   \* stages the harness wraps
 Rng(s) == {s[i] : i \in DOMAIN s}
-StepsOfRoute(r) == { <<x.stage, x.lin, x.lout>> : x \in {y \in Rng(Flow(r)) : y.stage \in Observable} }
-ModelSteps(k) == UNION { StepsOfRoute(f.route) : f \in {g \in Feeds : g.kind = k} }
-ModelSinks(k) == { <<f.zone, f.ctx, f.quoted, Final(f.route)>> : f \in {g \in Feeds : g.kind = k} }
+StepsOf(f, cls) == { <<x.stage, x.lin, x.lout>> : x \in {y \in Rng(Flow(f, cls)) : y.stage \in Observable} }
+ModelSteps(k, cls) == UNION { StepsOf(f, cls) : f \in {g \in Feeds : g.kind = k} }
+ModelSinks(k, cls) == { <<f.zone, f.ctx, f.quoted, Final(f, cls)>> : f \in {g \in Feeds : g.kind = k /\ Reaches(g, cls)} }
 
 \* observed flows handed in by the harness:
-\*   <<[kind, variant, sinks |-> <<<<zone, ctx, quoted, level>>>>, events |-> <<<<stage, lin, lout>>>>]>>
+\*   <<[kind, variant, cls, sinks |-> <<<<zone, ctx, quoted, level>>>>, events |-> <<<<stage, lin, lout>>>>]>>
 Observed == IF Source = "file" THEN JsonDeserialize(IOEnv.C10_OBSERVED) ELSE <<>>
 
 VARIABLES pair,     \* the (kind, sink, route) being walked        (enum)   / observation number (file)
+          cls,      \* payload class
           pc,       \* next stage of the route
           level, cont, parsedRaw, hist
-vars == <<pair, pc, level, cont, parsedRaw, hist>>
+vars == <<pair, cls, pc, level, cont, parsedRaw, hist>>
 
 Init ==
-  /\ IF Source = "enum" THEN pair \in Feeds ELSE pair \in 1..Len(Observed)
+  /\ IF Source = "enum" THEN pair \in Feeds /\ cls \in Classes ELSE pair \in 1..Len(Observed) /\ cls = "plain"
   /\ pc = 1 /\ level = 0 /\ cont = "src" /\ parsedRaw = FALSE /\ hist = <<>>
 
-Route == IF Source = "enum" THEN Routes[pair.route] ELSE <<>>
+Route == IF Source = "enum" THEN RouteSeq(pair, cls) ELSE <<>>
 
 Step ==
   /\ pc <= Len(Route)
@@ -188,10 +228,10 @@ Step ==
        /\ cont \in Stage[st].from                       \* WellTyped: a stage only takes what the code gives it
        /\ level' = Apply(st, level)
        /\ cont' = Stage[st].to
-       /\ parsedRaw' = (parsedRaw \/ (st = "ParseXml" /\ level = 0))
-       /\ hist' = Append(hist, <<st, level, Apply(st, level)>>)
+       /\ parsedRaw' = (parsedRaw \/ (st \in {"ParseXml", "ParseXmlFails"} /\ level = 0))
+       /\ hist' = Append(hist, <<ObsStage(st), level, ObsOut(st, level)>>)
   /\ pc' = pc + 1
-  /\ UNCHANGED pair
+  /\ UNCHANGED <<pair, cls>>
 
 Next == Step
 Spec == Init /\ [][Next]_vars
@@ -200,15 +240,16 @@ Done == pc = Len(Route) + 1
 
 \* ----------------------------------------------------------------------------- properties (model)
 NeverParsedRaw == ~parsedRaw
-SinkLevelOne == (Source = "enum" /\ Done) => (cont = "file" /\ level = 1)
+\* a flow ends in the page at level 1 - or, after an XML error, nowhere; fallback routes included
+SinkLevelOne == (Source = "enum" /\ Done) => ((cont = "file" /\ level = 1) \/ (cont = "none" /\ cls = "xmlbreak"))
 WellTyped == Source = "enum" => (pc <= Len(Route) => cont \in Stage[Route[pc]].from)
-SameAsWalk == (Source = "enum" /\ Done) => hist = [i \in DOMAIN Flow(pair.route) |->
-                  <<Flow(pair.route)[i].stage, Flow(pair.route)[i].lin, Flow(pair.route)[i].lout>>]
+SameAsWalk == (Source = "enum" /\ Done) => hist = [i \in DOMAIN Flow(pair, cls) |->
+                  <<Flow(pair, cls)[i].stage, Flow(pair, cls)[i].lin, Flow(pair, cls)[i].lout>>]
 
 EmitEnum == (Source = "enum" /\ Done) =>
-  PrintT(ToJson([kind |-> pair.kind, zone |-> pair.zone, ctx |-> pair.ctx, quoted |-> pair.quoted,
-                 route |-> pair.route, stages |-> hist, final |-> level, parsedRaw |-> parsedRaw,
-                 steps |-> {h \in Rng(hist) : h[1] \in Observable}]))
+  PrintT(ToJson([kind |-> pair.kind, zone |-> pair.zone, ctx |-> pair.ctx, quoted |-> pair.quoted, cls |-> cls,
+                 route |-> pair.route, stages |-> hist, final |-> level, reaches |-> cont = "file",
+                 parsedRaw |-> parsedRaw, steps |-> {h \in Rng(hist) : h[1] \in Observable}]))
 
 \* ----------------------------------------------------------------------------- properties (observed)
 ObsSinks(o) == Rng(o.sinks)
@@ -218,9 +259,9 @@ ObsNeverParsedRaw(o) == \A e \in ObsEvents(o) : e[1] = "ParseXml" => e[2] >= 1
 EmitFile == Source = "file" =>
   LET o == Observed[pair]
       known == o.kind \in Kinds
-      ms == IF known THEN ModelSinks(o.kind) ELSE {}
-      me == IF known THEN ModelSteps(o.kind) ELSE {}
-  IN PrintT(ToJson([n |-> pair, kind |-> o.kind, variant |-> o.variant,
+      ms == IF known THEN ModelSinks(o.kind, o.cls) ELSE {}
+      me == IF known THEN ModelSteps(o.kind, o.cls) ELSE {}
+  IN PrintT(ToJson([n |-> pair, kind |-> o.kind, variant |-> o.variant, cls |-> o.cls,
                     sinkLevelOne |-> ObsSinkLevelOne(o), neverParsedRaw |-> ObsNeverParsedRaw(o),
                     sinksNotInModel |-> ObsSinks(o) \ ms, modelSinksNotSeen |-> ms \ ObsSinks(o),
                     stepsNotInModel |-> ObsEvents(o) \ me, modelStepsNotSeen |-> me \ ObsEvents(o)]))
